@@ -227,6 +227,11 @@ func (ch *channel) maybeTruncate(fcall *Fcall) error {
 		// msize.  This is more defensive than anything but will ensure that
 		// calls don't fail on sloppy servers.
 
+		if size := ch.msgmsize(fcall); size > ch.msize {
+			// the request itself is larger than msize: it cannot be sent
+			return overflowErr{size: size - ch.msize}
+		}
+
 		// first, craft the shape of the response message
 		resp := newFcall(fcall.Tag, MessageRread{})
 		overflow := uint32(ch.msgmsize(resp)) + msg.Count - uint32(ch.msize)
